@@ -132,7 +132,7 @@ Proof.
 Qed.
 Theorem rename_keys_shared m s : Shared s -> Shared (fst (ds_rename_keys m s)).
 Proof.
-  intros Hs. unfold ds_rename_keys. destruct (negb _); [exact Hs|]. destruct (moved_vars m s) as [mv|] eqn:Em; [|exact Hs].
+  intros Hs. unfold ds_rename_keys. destruct (negb (nodupb _ _)); [exact Hs|]. destruct (negb _); [exact Hs|]. destruct (moved_vars m s) as [mv|] eqn:Em; [|exact Hs].
   simpl. intros w Hw id Hid. simpl in Hw. destruct (fold_put_in _ _ _ Hw) as [Hm|Hr].
   - destruct (moved_vars_src _ _ _ Em w Hm) as [v [Hv E]]. rewrite E in Hid. exact (Hs v Hv id Hid).
   - apply filter_In in Hr. exact (Hs w (proj1 Hr) id Hid).
@@ -703,7 +703,7 @@ Qed.
 Theorem rename_keys_inv m s : Inv4 s -> renkeys_ok s m -> Inv4 (fst (ds_rename_keys m s)).
 Proof.
   intros Hi [Ho [Hn Hcl]]. pose proof Hi as [[Hsh [Hus Hwf]] Hkeys]. pose proof (rename_keys_shared m s Hsh) as Hsh'.
-  unfold ds_rename_keys in *. destruct (negb _); [exact Hi|]. destruct (moved_vars m s) as [mv|] eqn:Em; [|exact Hi].
+  unfold ds_rename_keys in *. destruct (negb (nodupb _ _)); [exact Hi|]. destruct (negb _); [exact Hi|]. destruct (moved_vars m s) as [mv|] eqn:Em; [|exact Hi].
   fold (moving m) in *. set (olds := map fst (moving m)) in *.
   set (remaining := filter (fun w => negb (mem_str (vkey w) olds)) (dvars s)) in *.
   assert (Hk : map vkey mv = map snd (moving m)) by (eapply moved_vars_keys; exact Em).
